@@ -549,8 +549,50 @@ def l3(prog: Program, chk: Check) -> None:
                 path=None if p is None else g.describe_path(p, u.loc)[-6:])
 
 
+def frequency_range(u: Unit, c: ast.Call):
+    """(lower, upper, consistent) of a _complex_integral call in the frequency variable of the
+    integrand: `S * _complex_integral(lambda x: integrand(S * x), a, b)` integrates over
+    [S*a, S*b]; consistent = the factor in front is the same S (or there is no substitution)."""
+    kw = kw_of(c)
+    a = kw.get("a", ast.Constant(value="?"))
+    b = kw.get("b", ast.Constant(value="?"))
+    f = kw.get("integrand", c.args[0] if c.args else None)
+    scale = None
+    if isinstance(f, ast.Lambda) and len(f.args.args) == 1 and isinstance(f.body, ast.Call) \
+            and len(f.body.args) == 1 and isinstance(f.body.args[0], ast.BinOp) \
+            and isinstance(f.body.args[0].op, ast.Mult):
+        x = f.args.args[0].arg
+        l_, r_ = f.body.args[0].left, f.body.args[0].right
+        if isinstance(r_, ast.Name) and r_.id == x:
+            scale = l_
+        elif isinstance(l_, ast.Name) and l_.id == x:
+            scale = r_
+    if scale is None:
+        return norm(a), norm(b), True
+
+    def times(e):
+        if isinstance(e, ast.Constant) and e.value in (1, 1.0):
+            return norm(scale)
+        if norm(e) in ("np.inf", "numpy.inf", "inf"):
+            return "np.inf"
+        if isinstance(e, ast.Constant) and e.value in (0, 0.0):
+            return "0.0"
+        return f"{norm(scale)} * {norm(e)}"
+    # the Jacobian: the call is one factor of a product with the same scale
+    jac = False
+    for p_ in ast.walk(u.node):
+        if isinstance(p_, ast.BinOp) and isinstance(p_.op, ast.Mult) and (p_.left is c or p_.right is c):
+            other = p_.right if p_.left is c else p_.left
+            jac = norm(other) == norm(scale)
+    return times(a), times(b), jac
+
+
 # --------------------------------------------------------------------- L4
 def l4(prog: Program, chk: Check) -> None:
+    chk.rule("L9", "the quadrature over the semi-infinite tail of the frequency axis is done in "
+             "units of the cutoff frequency (lower limit a pure number, integrand evaluated at "
+             "cutoff * x, result multiplied by cutoff): QUADPACK's treatment of [a, inf) is not "
+             "scale covariant, and the bath must depend on cutoff * time only", floor=2)
     chk.rule("L4", "CUTOFF_DICT is the registry the constructor checks against; 'hard' is the "
              "only type that skips the [cutoff, inf) integral, identically in correlation() and "
              "eta_function(), whose integrand builders have the same branch structure", floor=5)
@@ -589,11 +631,27 @@ def l4(prog: Program, chk: Check) -> None:
                               "is not a registered type)")
         ints = [c for c in ast.walk(u.node) if isinstance(c, ast.Call)
                 and call_name(c) == "_complex_integral"]
-        bounds = [(norm(kw_of(c).get("a", ast.Constant(value="?"))),
-                   norm(kw_of(c).get("b", ast.Constant(value="?")))) for c in ints]
-        ok = bounds == [("0.0", "self.cutoff"), ("self.cutoff", "np.inf")]
-        chk.add("L4", u, f"integration ranges {bounds}", ok,
-                "" if ok else "the frequency axis is not covered as [0, cutoff] + [cutoff, inf)")
+        bounds = [frequency_range(u, c) for c in ints]
+        ok = [b[:2] for b in bounds] == [("0.0", "self.cutoff"), ("self.cutoff", "np.inf")] \
+            and all(b[2] for b in bounds)
+        chk.add("L4", u, f"integration ranges {[b[:2] for b in bounds]}", ok,
+                "" if ok else "the frequency axis is not covered as [0, cutoff] + [cutoff, inf)"
+                + ("" if all(b[2] for b in bounds) else
+                   " (a substitution w = S*x without the factor S, or with another one)"))
+        # the semi-infinite part is integrated in units of the cutoff
+        for c, b in zip(ints, bounds):
+            if b[1] != "np.inf":
+                continue
+            a_ = kw_of(c).get("a")
+            plain = isinstance(a_, ast.Constant) and isinstance(a_.value, (int, float))
+            chk.add("L9", u, f"semi-infinite quadrature from {norm(a_) if a_ is not None else '?'}", plain,
+                    "dimensionless lower limit: the integrand is evaluated in units of the cutoff"
+                    if plain else
+                    "QUADPACK maps [a, inf) to (0, 1] with x = a + (1-t)/t, whatever the scale of the "
+                    "integrand: for a cutoff frequency of 1e5 or more (SI units) the whole tail "
+                    "falls between two nodes, the integral comes back as ~0 with a warning, and "
+                    "correlation() / eta_function() are wrong by O(1) - the bath no longer depends "
+                    "on cutoff * time only", c)
     a, b = sigs.values()
     chk.add("L4", prog.unit(f"{BC}:CustomSD.eta_function"),
             "branch structure of correlation() and eta_function() agrees", a == b,
